@@ -9,4 +9,4 @@ for id in "$@"; do
   echo "== $id rc=$rc"
   echo "$o" | grep "^VIOLATION\|^KNOWN" | cut -c1-300
 done
-git -C "$REPO" checkout -- .
+git -C "$REPO" checkout -- . && git -C "$REPO" clean -fdq src
